@@ -585,6 +585,18 @@ fn oracle_in_file(case: &[u8], obs: &mut Obs) -> Result<(), String> {
             if h.sh_flags & 0x800 != 0 {
                 continue;
             }
+            // (in half of the cases after another range around the section was read through the same handle)
+            if c.u8() >= 128 {
+                let a = h.sh_offset - c.below(h.sh_offset.min(24) + 1);
+                let b = match c.below(3) {
+                    0 => h.sh_offset + h.sh_size,
+                    1 => (h.sh_offset + h.sh_size + c.below(24)).min(data.len() as u64),
+                    _ => a + c.below(h.sh_offset + h.sh_size - a + 1),
+                };
+                let fab = SectionHeader { sh_name: 0, sh_type: 1, sh_flags: 0, sh_addr: 0, sh_offset: a, sh_size: b.max(a) - a, sh_link: 0, sh_info: 0, sh_addralign: 1, sh_entsize: 0 };
+                let _ = fs.section_data(&fab);
+                obs.label("another_range_read_before_the_relocations");
+            }
             let gs: Result<Vec<(u64, u64, u64, i64)>, ParseError> = if rela { fs.section_data_as_relas(&h).map(|it| it.take(cap).map(|r| (r.r_offset, r.r_sym as u64, r.r_type as u64, r.r_addend)).collect()) } else { fs.section_data_as_rels(&h).map(|it| it.take(cap).map(|r| (r.r_offset, r.r_sym as u64, r.r_type as u64, 0)).collect()) };
             match gs {
                 Ok(g) if g == want => {
@@ -609,7 +621,7 @@ pub fn property() -> Property {
     Property {
         id: "C09",
         level: "exploration",
-        rule: "cases are (entry type in {SectionHeader,ProgramHeader,Symbol,Dyn,VersionIndex,u32,u64,Rel,Rela}, class, byte order, fixed or run-time spec, n<=40 entries encoded by the independent ELF writer from generated field values, 0..entsize-1 trailing bytes, an access script of len/is_empty/get(i)/iter/into_iter/interleaved-iterator steps, nth(k) on the advanced iterator, skip/step_by/count/last/fuse on fresh and partly consumed iterators (the relocation iterators also through direct calls on the concrete types), with i in 0..n+2, k*2^32+i and near usize::MAX incl. indices whose byte offset wraps); oracle: len==floor(bytes/ABI entsize), get(i) Ok iff i<n and equal to the encoded entry, iter and into_iter yield exactly n items with item i == get(i) == encoded entry, is_empty==(n==0), independent of order/repetition. Non-trivial: ragged byte length or an access at index len; distinct by (bytes, script) hash. Subcheck big_tables: VersionIndex/u32/u64 tables of k*65536 + {-2..3, 255..257, 0..3000} pairwise distinct entries (k in 1..3), the same oracle with accesses at 65535/65536/65537/n-1/n, nth and skip/step_by distances above 2^16; every case counts as non-trivial. Subcheck in_file: the tables the file-level accessors hand out (ElfBytes section_headers/segments/symbol_table/dynamic_symbol_table/dynamic/find_common_data, i.e. tables whose bytes sit in the middle of a larger buffer; ElfStream symbol_table/dynamic_symbol_table/dynamic) on the three input modes: len/is_empty/iteration/get(i)/count/last agree and get(len), get(len+1..), get(2^32|len), get(usize::MAX) fail; every SHT_REL/SHT_RELA section through ElfBytes and through ElfStream over a reader with short reads and interruptions yields exactly the reference decoding of its whole entries (bounded by take(bytes+2)).",
+        rule: "cases are (entry type in {SectionHeader,ProgramHeader,Symbol,Dyn,VersionIndex,u32,u64,Rel,Rela}, class, byte order, fixed or run-time spec, n<=40 entries encoded by the independent ELF writer from generated field values, 0..entsize-1 trailing bytes, an access script of len/is_empty/get(i)/iter/into_iter/interleaved-iterator steps, nth(k) on the advanced iterator, skip/step_by/count/last/fuse on fresh and partly consumed iterators (the relocation iterators also through direct calls on the concrete types), with i in 0..n+2, k*2^32+i and near usize::MAX incl. indices whose byte offset wraps); oracle: len==floor(bytes/ABI entsize), get(i) Ok iff i<n and equal to the encoded entry, iter and into_iter yield exactly n items with item i == get(i) == encoded entry, is_empty==(n==0), independent of order/repetition. Non-trivial: ragged byte length or an access at index len; distinct by (bytes, script) hash. Subcheck big_tables: VersionIndex/u32/u64 tables of k*65536 + {-2..3, 255..257, 0..3000} pairwise distinct entries (k in 1..3), the same oracle with accesses at 65535/65536/65537/n-1/n, nth and skip/step_by distances above 2^16; every case counts as non-trivial. Subcheck in_file: the tables the file-level accessors hand out (ElfBytes section_headers/segments/symbol_table/dynamic_symbol_table/dynamic/find_common_data, i.e. tables whose bytes sit in the middle of a larger buffer; ElfStream symbol_table/dynamic_symbol_table/dynamic) on the three input modes: len/is_empty/iteration/get(i)/count/last agree and get(len), get(len+1..), get(2^32|len), get(usize::MAX) fail; every SHT_REL/SHT_RELA section through ElfBytes and through ElfStream over a reader with short reads and interruptions (half of them after another range around the section was read through the same handle) yields exactly the reference decoding of its whole entries (bounded by take(bytes+2)).",
         assumptions: &["entry sizes are the ABI sizes from <elf.h> (writer self-check)"],
         subs: vec![Sub::new("tables", oracle, 4096, 1_500_000, 40_000_000), Sub::new("big_tables", oracle_big, 160, 1_500, 60_000).shrink(60), Sub::new("in_file", oracle_in_file, 2400, 60_000, 3_000_000).shrink(1500)],
         extras: vec![crate::fuzz::c09_choice],
